@@ -108,7 +108,8 @@ let run_line (line : string) : string =
             (ESpawn (natom caller, List.map val_of vals),
              Printf.sprintf "(spawn %s %s %s)" (Sexp.atom caller) (string_of_n (!st).next_pid)
                (Sexp.to_string (Sexp.List vals)))
-          | Sexp.List [Sexp.Atom "send"; target; v] -> (ESend (natom target, val_of v), Sexp.to_string ev)
+          | Sexp.List [Sexp.Atom "send"; target; v; from] ->
+            (ESend ((match from with Sexp.Atom "?" -> N0 | f -> natom f), natom target, val_of v), Sexp.to_string ev)
           | Sexp.List [Sexp.Atom "results"; _; Sexp.List ps] -> (EResults (List.map natom ps), Sexp.to_string ev)
           | _ -> (EOther, Sexp.to_string ev) in
         let calls = new_calls !st e in
